@@ -127,6 +127,9 @@ func buildScenarios(key echx.KeyPair) []scenario {
 	hrrMsg := echx.HRRRecord(sid)[5:]
 	serverFlightFrag := cat(tlsref.Fragment(0x0303, shMsg, 2, 40), serverFlight[len(echx.ServerHelloRecord(sid)):])
 	hrrFrag := tlsref.Fragment(0x0303, hrrMsg, 1, 50)
+	// a HelloRetryRequest with a 17000-byte cookie: longer than a record, within the handshake message limit
+	bigHRRMsg := tlsref.ServerHelloMsg(true, sid, []tlsref.Ext{{Type: tlsref.ExtSupportedVersions, Data: []byte{3, 4}}, {Type: tlsref.ExtKeyShare, Data: []byte{0, 0x17}}, {Type: 44, Data: append([]byte{17000 >> 8, 17000 & 0xff}, tlsref.DetBytes("cookie", 17000)...)}})
+	hrrBig := tlsref.FragmentMax(0x0303, bigHRRMsg)
 	return []scenario{
 		{"accepted-fragmented-serverhello", keys, []step{
 			{dir: 'c', data: cat(ch1, clientTailNoAppFirst), expect: cat(in1, clientTailNoAppFirst), rewritten: [][2]int{{0, len(ch1)}}},
@@ -139,6 +142,12 @@ func buildScenarios(key echx.KeyPair) []scenario {
 			{dir: 'c', data: cat(rec(20, 1, "ccs"), ch2, clientTailNoAppFirst), expect: cat(rec(20, 1, "ccs"), in2, clientTailNoAppFirst), rewritten: [][2]int{{6, 6 + len(ch2)}}},
 			{dir: 'b', data: serverFlightFrag, expect: serverFlightFrag},
 			{dir: 'c', data: clientTail, expect: clientTail},
+		}},
+		{"accepted-big-hrr", keys, []step{
+			{dir: 'c', data: ch1, expect: in1, rewritten: [][2]int{{0, len(ch1)}}},
+			{dir: 'b', data: hrrBig, expect: hrrBig},
+			{dir: 'c', data: cat(rec(20, 1, "ccs"), ch2, clientTailNoAppFirst), expect: cat(rec(20, 1, "ccs"), in2, clientTailNoAppFirst), rewritten: [][2]int{{6, 6 + len(ch2)}}},
+			{dir: 'b', data: serverFlight, expect: serverFlight},
 		}},
 		{"accepted-fragmented-hello", keys, []step{
 			{dir: 'c', data: cat(ch1frag, clientTailNoAppFirst), expect: cat(in1, clientTailNoAppFirst), rewritten: [][2]int{{0, len(ch1frag)}}},
@@ -886,13 +895,23 @@ func Run(r *ev.Run) {
 		extras := map[string][]byte{"1-zero-byte": {0}, "4-bytes": {0xde, 0xad, 0xbe, 0xef}, "40-zero-bytes": make([]byte, 40), "a-whole-handshake-message": tlsref.HandshakeMsg(11, tlsref.DetBytes("coalesced", 20))}
 		for _, ek := range []string{"1-zero-byte", "4-bytes", "40-zero-bytes", "a-whole-handshake-message"} {
 			extra := extras[ek]
-			for _, retried := range []bool{false, true} {
+			for _, variant := range []int{0, 1, 2, 3} {
+				retried, frag := variant&1 == 1, variant&2 == 2
 				kind := "first-hello"
 				if retried {
 					kind = "retried-hello"
 				}
+				if frag {
+					kind += "-in-two-records"
+				}
 				desc := fmt.Sprintf("%s followed by %s inside its record", kind, ek)
 				coalesce := func(chRec []byte) []byte { return tlsref.Record(22, 0x0301, cat(chRec[5:], extra)) }
+				if frag {
+					// the hello spans two records and the bytes follow it in the second one
+					coalesce = func(chRec []byte) []byte {
+						return cat(tlsref.Record(22, 0x0301, chRec[5:155]), tlsref.Record(22, 0x0301, cat(chRec[155:], extra)))
+					}
+				}
 				t := memnet.New()
 				var conn *ech.Conn
 				var err error
